@@ -10,4 +10,16 @@ DRIVERS = {
         "level_text": "All reachable abstract engine states (per ruleset: remaining pause, suspended action) of every configuration in the family are visited; on every transition the ordered prerun/run call log, the action context each action sees and the engine's private state are compared with an independent reference model. Complete for the configuration family and clock advances listed in evidence.bounds, not for all configurations.",
         "level_note": "Trusted: the scripted plugin (records calls, returns the explorer's choice), the interposed virtual clock, the reference model transcribed from docs/configuration.md. Plugins are assumed to influence the engine only through their return values.",
     },
+    "C06": {
+        "sources": COMMON + ["props/c06.cpp"], "level": "model_checking", "engine": "E1",
+        "technique": "explicit-state BFS to fixpoint over the real engine with ASYNC_PAUSED at every chain position, compared step by step with a reference model (instance identity and ActionContext equality on resume)",
+        "level_text": "Every reachable (pause, suspended action) state of each configuration is visited with all detector verdicts and all action return sequences; on every resume the check demands the same plugin instance and a field-equal action context (ruleset, first-fired group, run uuid, prekill deadline), continuation at the following action, no second chain while suspended and a fresh uuid afterwards. Complete for the listed family.",
+        "level_note": "Trusted: scripted plugin, virtual clock, reference model. target_cgroup equality on resume is checked in C11 (ruleset-cgroup instances), where it is non-empty.",
+    },
+    "C05": {
+        "sources": COMMON + ["props/c05.cpp"], "level": "model_checking", "engine": "E1",
+        "technique": "explicit-state BFS to fixpoint over the real engine + real (dry) kill plugins + scripted prekill hooks under a virtual clock, compared with a reference pause model",
+        "level_text": "For every (ruleset delay, plugin delay, hook variant) configuration all reachable (remaining pause, suspended action, remaining hook window) states are visited with clock advances 1/2/3 s, so ticks land before, exactly at and after t+d; STOP is reached synchronously, after prekill-hook waits and after kill_by_pg_scan's sampling tick, with the detector firing or silent on the resume tick. Model equality of the call log plus the engine's private pause timestamp decide the property.",
+        "level_note": "Trusted: observer plugin verif_wrap (forwards to the real plugin and records its return), scripted hook, virtual clock. Wet kills (which sleep inside the action) are covered by C01/C17, not here.",
+    },
 }
